@@ -71,3 +71,64 @@ Theorem C07_code_double : forall v size, v < 2^64 ->
   gcbor_encode_double (Z.of_N v) (Z.of_N size) = zres (encode_double v size).
 Proof. exact bridge_encode_double. Qed.
 Print Assumptions C07_code_half.
+
+(* ------------------------------------------------------------------------------------------ *)
+(* Translator tie of the serializer's control and arithmetic (translator/effects.py renders
+   serialization.c as plans, one per function and one per loop round; gen/Gen_effects_ser.v is
+   regenerated from the working tree on every run; Bridge_effects_ser.v; HPlansSer_proofs.v): one round
+   of the element loop passes the window `buffer + written, buffer_size - written` and propagates a 0;
+   the head of an array is computed from its size; a definite string is accepted iff the head fitted and
+   `buffer_size - head >= length`; cbor_serialize_alloc's outcome table. *)
+From Coq Require Import String.
+From CB Require Import HHeap HItems HOps HCont_proofs HPlans HPlansSer HPlans_proofs HPlansSer_proofs Bridge_effects_ser.
+From CBGen Require Import Gen_effects_ser.
+Local Open Scope string_scope.
+Local Open Scope list_scope.
+Local Open Scope N_scope.
+
+Theorem C07_code_array_round_followed : forall al definite total k x r size written out w1 o1,
+  written <= size -> size < 2 ^ 64 -> k < total -> total < 2 ^ 64 ->
+  serialize_into x (size - written) = Some (w1, o1) -> w1 <= size - written ->
+  let p := Gcbor_serialize_array_loop0 al (dst_z definite) (Z.of_N total) (Z.of_N size) (Z.of_N k) (Z.of_N written) (Z.of_N w1) in
+  p_reqs p = [ReqCall "cbor_serialize" [AP (PSlot slots0 (Z.of_N k) ""); APO (PArg 1) (Z.of_N written); AZ (Z.of_N (size - written))]] /\
+  (w1 = 0 -> returns p = true /\ ret_N p = 0 /\ ser_seq serialize_into (x :: r) size written out = Some (0, out ++ o1)) /\
+  (w1 <> 0 -> to_head 0 p = true /\ fieldN "round" p = k + 1 /\ fieldN "acc0" p = written + w1 /\
+              ser_seq serialize_into (x :: r) size written out = ser_seq serialize_into r size (fieldN "acc0" p) (out ++ o1)).
+Proof. exact code_array_round_followed. Qed.
+Print Assumptions C07_code_array_round_followed.
+
+Theorem C07_code_defstr_followed : forall cc (text : bool) mt (d : list N) size k a,
+  size < 2 ^ 64 -> len d < 2 ^ 64 -> fst (enc_uint (len d) size mt) <= size ->
+  let hd := enc_uint (len d) size mt in
+  let p := (if text then Gcbor_serialize_string else Gcbor_serialize_bytestring)
+             cc (dst_z true) (Z.of_N (len d)) (Z.of_N size) k a (Z.of_N (fst hd)) in
+  ser_defstr mt d size = (ret_N p, if negb (ret_N p =? 0) then snd hd ++ d else snd hd) /\
+  (ret_N p <> 0 -> ret_N p = fst hd + len d /\ fst hd + len d <= size /\
+                   p_effs p = if 0 <? len d then [CopyAt (PArg 1) (Z.of_N (fst hd)) (PField item0 "data") (Z.of_N (len d))] else []).
+Proof. exact code_defstr_followed. Qed.
+Print Assumptions C07_code_defstr_followed.
+
+Theorem C07_code_serialize_alloc_followed : forall refuse a w t w1 wr out (nn : bool) osz,
+  abs_of a w = Ret t w1 ->
+  serialize_into t (ssize t) = Some (wr, out) -> ssize t < 2 ^ 64 -> wr < 2 ^ 64 ->
+  let ok := malloc_ok refuse (nreq w1) (ssize t) in
+  let p := Gcbor_serialize_alloc osz nn ok (Z.of_N (ssize t)) (Z.of_N wr) in
+  exists bytes w',
+    serialize_alloc_h refuse a w = Ret (ret_N p, out_buffer p (next w1), bytes) w' /\
+    trace w' = (if ssize t =? 0 then [] else [EvMalloc (ssize t) (if ok then Some (next w1) else None)]) ++ trace w1 /\
+    (nn = true -> fieldN "out_size" p = if (ssize t =? 0) || negb ok then 0 else ssize t) /\
+    (nn = false -> p_fields p = []) /\
+    ((ssize t =? 0) || negb ok = true -> ret_N p = 0 /\ out_buffer p (next w1) = None /\ heap w' = heap w1) /\
+    ((ssize t =? 0) || negb ok = false -> ret_N p = wr /\ bytes = out /\ heap w' (next w1) = Some (CData (ssize t))).
+Proof. exact code_serialize_alloc_followed. Qed.
+Print Assumptions C07_code_serialize_alloc_followed.
+
+Theorem C07_after_parts_follows_plan : forall (indef : bool) size written (out : list N),
+  written <= size -> size < 2 ^ 64 -> written <> 0 ->
+  let bw := fst (enc_byte 0xFF (size - written)) in
+  let bo := snd (enc_byte 0xFF (size - written)) in
+  let p := after_parts (negb indef) written size bw in
+  p_reqs p = (if indef then [ReqCall "cbor_encode_break" [APO (PArg 1) (Z.of_N written); AZ (Z.of_N (size - written))]] else []) /\
+  ser_close indef size (Some (written, out)) =
+    Some (ret_N p, if indef && negb (bw =? 0) then out ++ bo else out).
+Proof. exact after_parts_follows_plan. Qed.
